@@ -14,6 +14,7 @@ const (
 	RadOK      = iota // request reaches the server, reply reaches the client
 	RadDrop           // request lost: the server never sees it, the client times out
 	RadAckLoss        // server processes the request, the reply is lost
+	RadSlow           // server processes the request, the reply takes SlowBy longer (still inside the client's timeout)
 )
 
 // RadiusNet is the simulated RADIUS transport + server front end.
@@ -29,6 +30,7 @@ type RadiusNet struct {
 	// Step is a crash-point hook (kind = "radius-send" or "radius-reply").
 	Step     func(kind string) bool
 	Latency  time.Duration
+	SlowBy   time.Duration // extra delay of a RadSlow reply (default 2 s)
 	Requests int
 }
 
@@ -88,6 +90,21 @@ func (r *RadiusNet) Exchange(ctx context.Context, p *radius.Packet, addr string)
 	if outcome == RadAckLoss || resp == nil {
 		r.S.Fault("radius.ackloss")
 		return nil, r.waitDeadline(ctx)
+	}
+	if outcome == RadSlow {
+		r.S.Fault("radius.slow-reply")
+		d := r.SlowBy
+		if d <= 0 {
+			d = 2 * time.Second
+		}
+		tm := time.NewTimer(d)
+		select {
+		case <-tm.C:
+		case <-ctx.Done():
+			tm.Stop()
+		}
+		r.S.Pause()
+		r.S.DieIfDead()
 	}
 	if ctx.Err() != nil {
 		return nil, ctx.Err()
